@@ -47,12 +47,11 @@ func (f *Field) resolve(file *File) error {
 }
 
 func (f *Field) resolved() error {
-	ref := f.Type.Ref
-	if ref == nil {
-		return nil
-	}
-	if ref.Type == DefinitionService {
-		return fmt.Errorf("invalid field %q: service type not allowed", f.Name)
+	for t := f.Type; t != nil; t = t.Element {
+		ref := t.Ref
+		if ref != nil && ref.Type == DefinitionService {
+			return fmt.Errorf("invalid field %q: service type not allowed", f.Name)
+		}
 	}
 	return nil
 }
